@@ -8,6 +8,7 @@ import (
 	"path/filepath"
 	"regexp"
 	"runtime"
+	"sort"
 	"strconv"
 	"strings"
 	"sync"
@@ -561,7 +562,126 @@ func runStress(c strCase, dir string) (any, error) {
 	tr.mu.Lock()
 	events := tr.events
 	tr.mu.Unlock()
-	return map[string]any{"id": c.ID, "requests": nreq, "stuck": stuck, "trace": events}, nil
+	out := map[string]any{"id": c.ID, "requests": nreq, "stuck": stuck, "trace": events}
+	if stuck != "" {
+		return out, nil
+	}
+	// ---- the state the history has led to: files as saved last, open documents with their buffers, the configuration
+	// after every payload.  Every answer of the server that lived through the history must be the answer of a fresh
+	// server that is simply GIVEN that state (C14: "every response equals the response computed from the document state").
+	var payloads []map[string]any
+	for _, op := range c.Ops {
+		if op.Op == "config" {
+			payloads = append(payloads, strPayloads[op.Arg%len(strPayloads)])
+		}
+	}
+	if !waitUntil(30*time.Second, func() bool {
+		client.mu.Lock()
+		defer client.mu.Unlock()
+		return client.cfgDone >= 1+len(payloads)
+	}) {
+		out["stuck"] = "configuration refreshes did not finish within 30 s after the stream ended"
+		return out, nil
+	}
+	// Which payload each refresh fetched is a matter of timing between the stub client and the refresh goroutines; the
+	// comparison is made under one last payload that pins every setting the compared answers depend on.
+	pin := map[string]any{"completion": map[string]any{"maxResults": 50, "fuzzyMatching": true, "showCounts": true},
+		"formatting":  map[string]any{"indentSize": 4, "alignAmounts": true, "minAlignmentColumn": 0},
+		"diagnostics": map[string]any{"undeclaredAccounts": true, "undeclaredCommodities": true, "unbalancedTransactions": true},
+		"limits":      map[string]any{"maxIncludeDepth": 50, "maxFileSizeBytes": 10485760},
+		"features": map[string]any{"hover": true, "completion": true, "formatting": true, "diagnostics": true, "semanticTokens": true,
+			"foldingRanges": true, "documentLinks": true, "workspaceSymbol": true, "inlineCompletion": true}}
+	applyPin := func(s *session, already int) bool {
+		s.client.mu.Lock()
+		s.client.config = func() []interface{} { return []interface{}{pin} }
+		s.client.mu.Unlock()
+		_ = s.srv.DidChangeConfiguration(ctx, &protocol.DidChangeConfigurationParams{Settings: pin})
+		return waitUntil(30*time.Second, func() bool {
+			s.client.mu.Lock()
+			defer s.client.mu.Unlock()
+			return s.client.cfgDone >= already+1
+		})
+	}
+	if !applyPin(sess, 1+len(payloads)) {
+		out["stuck"] = "the last configuration refresh did not finish within 30 s"
+		return out, nil
+	}
+	lineOf := func(u string) uint32 {
+		if u == "u1" {
+			return 3
+		}
+		return 1
+	}
+	askAll := func(s *session) map[string]string {
+		res := map[string]string{}
+		for _, u := range []string{"u1", "u2", "u3"} {
+			if !open[u] {
+				continue
+			}
+			for _, k := range ccKinds {
+				l, ch := lineOf(u), uint32(6)
+				if k == "inlineCompletion" {
+					if t, ok := s.srv.GetDocument(uris[u]); ok {
+						l, ch = uint32(strings.Count(t, "\n")), 0
+					}
+				}
+				r, err := callRequest(ctx, s.srv, k, uris[u], l, ch)
+				e := ""
+				if err != nil {
+					e = err.Error()
+				}
+				res[u+"/"+k] = mustJSON(r) + e
+			}
+		}
+		return res
+	}
+	var got, want map[string]string
+	_, hang2 := timed(60*time.Second, func() { got = askAll(sess) })
+	if hang2 != "" {
+		out["stuck"] = "requests after the stream did not return within 60 s: " + hang2
+		return out, nil
+	}
+	for _, u := range uris {
+		sess.unwatch(u)
+	}
+	fresh, err := newSession(dir, root, nil, true)
+	if err != nil {
+		return nil, err
+	}
+	cfgWanted := 1
+	waitCfg := func() bool {
+		return waitUntil(30*time.Second, func() bool {
+			fresh.client.mu.Lock()
+			defer fresh.client.mu.Unlock()
+			return fresh.client.cfgDone >= cfgWanted
+		})
+	}
+	if !waitCfg() {
+		return nil, fmt.Errorf("fresh server: configuration refresh after initialized did not finish")
+	}
+	if !applyPin(fresh, 1) {
+		return nil, fmt.Errorf("fresh server: configuration refresh did not finish")
+	}
+	for _, u := range []string{"u1", "u2", "u3"} {
+		if !open[u] {
+			continue
+		}
+		fresh.watch(uris[u])
+		if err := fresh.open(uris[u], text(u, vers[u])); err != nil {
+			return nil, err
+		}
+	}
+	want = askAll(fresh)
+	var stale []map[string]string
+	for k, w := range want {
+		if got[k] != w {
+			stale = append(stale, map[string]string{"what": k, "got": got[k], "want": w})
+		}
+	}
+	sort.Slice(stale, func(i, j int) bool { return stale[i]["what"] < stale[j]["what"] })
+	state := map[string]any{"open": open, "versions": vers}
+	out["final"] = map[string]any{"asked": len(want), "stale": stale, "state": state}
+	return out, nil
 }
 
 var xverRe = regexp.MustCompile(`XVER off by (\d+)`)
